@@ -172,6 +172,7 @@ package schema
 //@ func buildProcessLayout
 //@   prop C19
 //@   requires process != nil && cfg != nil
+//@   ensures [a-process-band-is-at-least-the-minimum-height] processHeight >= 160.0
 //@   loop 1 range nodes
 //@     invariant forall a int :: 0 <= a && a < rk1 ==>
 //@                 nodes[a].x == cfg.StartX + levelMap[nodes[a].id] * cfg.ColumnGap &&
@@ -229,3 +230,13 @@ package schema
 //@     invariant seen != nil
 //@     invariant forall a int :: off(nodes) <= a && a < off(nodes) + len(nodes) ==> at(nodes, a) != nil && fresh(at(nodes, a)) &&
 //@                 36.0 <= at(nodes, a).width && at(nodes, a).width <= 120.0 && 36.0 <= at(nodes, a).height && at(nodes, a).height <= 100.0
+
+// Processes are laid out in bands stacked downwards: the band of the next process starts below the start of the
+// previous one by that process's height plus the configured gap (so bands of different processes do not overlap when
+// the gap is not negative — for the third and every later process as well).
+//@ func (*DefinitionBuilder).AutoLayout
+//@   prop C19
+//@   requires cfg != nil && builder.Definitions != nil
+//@   loop 1 range builder.ProcessField
+//@     invariant cfg != nil && builder.Definitions != nil
+//@     iter ensures [process-bands-are-stacked] currentY == old(currentY) + processHeight + cfg.ProcessGap && processHeight >= 160.0
